@@ -9,7 +9,7 @@ for n in $names; do
   [ -f $d/patch.diff ] || continue
   if [ -n "$(git -C /repo status --porcelain --untracked-files=no)" ]; then echo "repo dirty, abort"; exit 2; fi
   props=$(python3 -c "import json;m=json.load(open('$d/meta.json'));print(','.join(m.get('checks',[m['property']])))")
-  git -C /repo apply $d/patch.diff || { echo "$n: patch does not apply"; continue; }
+  git -C /repo apply /verif/$d/patch.diff || { echo "$n: patch does not apply"; continue; }
   out=$(./vcheck.sh -p $props -no-evidence 2>&1); rc=$?
   git -C /repo checkout -- .
   if [ $rc -eq 1 ]; then echo "$n: CAUGHT by $props"; echo "$out" | grep "violation:" | head -3 | sed 's/^/      /';
